@@ -292,6 +292,8 @@ func runC04(line string) string {
 			}
 		case "p":
 			// n INCRs of one key written at once: when they are redirected they must still execute in the order sent
+			// (the other connection and the proxy's own refresh keep using the target's connection meanwhile: ASKING and the
+			// command it announces must stay together, or that command goes round once more, behind the ones after it)
 			cnt, _ := strconv.Atoi(fs[1])
 			key, _ := hex.DecodeString(fs[2])
 			var buf []byte
@@ -623,7 +625,7 @@ func init() {
 				}
 			}
 			for j, nj := 0, 3+r.intn(25); j < nj; j++ {
-				switch r.intn(12) {
+				switch r.intn(13) {
 				case 10:
 					// a finalisation window on a key that is then used: migrate its slot, finish with lag, requests
 					k := keys[r.intn(len(keys))]
@@ -666,6 +668,15 @@ func init() {
 							items = append(items, "w")
 						}
 					}
+				case 12:
+					// a burst of pipelined commands on a key that has already moved: every one is redirected, more than the
+					// target connection's request queue holds at once - they wait for room, none is refused
+					if r.chance(1, 2) {
+						continue
+					}
+					ck := []byte("ctr" + strconv.Itoa(r.intn(3)))
+					items = append(items, fmt.Sprintf("mb %d %d", slotOf(ck), r.intn(n)), "mk "+hex.EncodeToString(ck),
+						fmt.Sprintf("p %d %s", 1100+r.intn(500), hex.EncodeToString(ck)))
 				case 11:
 					// a half-migrated slot with two keys of one hash tag: one has moved, the other has not; each is read and
 					// written where it is
